@@ -86,3 +86,25 @@ pub assume_specification<T> [core::option::Option::<T>::or] (a: Option<T>, b: Op
     where T: core::marker::Destruct,
     ensures r == (if a is Some { a } else { b });
 pub broadcast axiom fn axiom_slice_i64_len(s: &[i64]) ensures #[trigger] s@.len() <= 0x0FFF_FFFF_FFFF_FFFF;
+// ---- BTreeMap entry API (T-std): `m.entry(k).or_default()` yields a reference into the map at k (default-inserted if absent);
+// the prophetic final map is the old map with k bound to the final value behind that reference.
+#[verifier::external_type_specification]
+#[verifier::external_body]
+#[verifier::reject_recursive_types(K)]
+#[verifier::reject_recursive_types(V)]
+#[verifier::reject_recursive_types(A)]
+pub struct ExBTreeEntry<'a, K: 'a, V: 'a, A: core::alloc::Allocator + Clone>(std::collections::btree_map::Entry<'a, K, V, A>);
+pub uninterp spec fn entry_old<'a, K, V, A: core::alloc::Allocator + Clone>(e: std::collections::btree_map::Entry<'a, K, V, A>) -> Map<K, V>;
+pub uninterp spec fn entry_key<'a, K, V, A: core::alloc::Allocator + Clone>(e: std::collections::btree_map::Entry<'a, K, V, A>) -> K;
+#[verifier::prophetic]
+pub uninterp spec fn entry_fin<'a, K, V, A: core::alloc::Allocator + Clone>(e: std::collections::btree_map::Entry<'a, K, V, A>) -> Map<K, V>;
+pub uninterp spec fn is_default<V>(v: V) -> bool;
+pub broadcast axiom fn vec_default_empty<T>(v: Vec<T>) ensures #[trigger] is_default(v) <==> v@.len() == 0;
+pub assume_specification<K: Ord, V, A: core::alloc::Allocator + Clone> [std::collections::BTreeMap::<K, V, A>::entry]
+    (m: &mut std::collections::BTreeMap<K, V, A>, key: K) -> (e: std::collections::btree_map::Entry<'_, K, V, A>)
+    ensures entry_old(e) == old(m)@, entry_key(e) == key, final(m)@ == entry_fin(e);
+pub assume_specification<'a, K: Ord, V: Default, A: core::alloc::Allocator + Clone> [std::collections::btree_map::Entry::<'a, K, V, A>::or_default]
+    (e: std::collections::btree_map::Entry<'a, K, V, A>) -> (r: &'a mut V)
+    ensures entry_old(e).contains_key(entry_key(e)) ==> *r == entry_old(e)[entry_key(e)],
+            !entry_old(e).contains_key(entry_key(e)) ==> is_default(*r),
+            entry_fin(e) == entry_old(e).insert(entry_key(e), *final(r));
